@@ -3122,7 +3122,11 @@ def remove_duplicate_dict_keys(source: str) -> str:
         keys = []
         values = []
         for i, (key, value) in enumerate(zip(node.keys, node.values)):
-            if not isinstance(key, ast.Constant) or i == max(key_occurences[key.value]):
+            if (
+                not isinstance(key, ast.Constant)
+                or i == max(key_occurences[key.value])
+                or core.has_side_effect(value)  # The value is still computed, for its effect
+            ):
                 keys.append(key)
                 values.append(value)
 
